@@ -260,6 +260,7 @@ package internal
 //@   ghost cf compiledFunc
 //@   at call compileFunction 1 ghost cf = ret
 //@   ensures [C01,C11] task-and-predicate-functions-are-new-distinct-objects: implies(result != nil, result.Function != nil && forall(i, int, implies(0 <= i && i < len(flow.Funcs), flow.Funcs[i] != result.Function)) && implies(result.Predicate != nil, result.Predicate.Function != nil && result.Predicate.Function != result.Function && forall(i, int, implies(0 <= i && i < len(flow.Funcs), flow.Funcs[i] != result.Predicate.Function))))
+//@   ensures [C18] auto-instrument-gives-every-task-of-an-instrumented-flow-an-instrument: implies(result != nil && flow.Instrument != nil && c.instrumentAllTasks, result.Instrument != nil)
 //@   ensures [C02,C10,C13] serial-numbers-are-handed-out-once: implies(result != nil, result.Serial == old(c.taskSerial) && c.taskSerial == old(c.taskSerial) + 1)
 //@   ensures [C14] a-task-without-results-needs-invoke-and-invoke-needs-no-results: implies(result != nil && ((len(result.Outputs) == 0 && result.invokeType == nil) || (len(result.Outputs) > 0 && result.invokeType != nil)), len(c.errors) > old(len(c.errors)))
 //@   ensures [C02,C11] task-keeps-the-compiled-functions-signature-inputs-and-outputs: implies(result != nil, result.Inputs == cf.Inputs && result.Outputs == cf.Outputs && result.Function != nil && result.Function.Task == result && result.Function.Sig == cf.Sig && result.Function.WantCtx == cf.WantCtx && result.Function.HasError == cf.HasError && result.Function.Node == cf.Node)
@@ -561,6 +562,7 @@ package internal
 //@ func (*compiler).compileInstrumentName
 //@   option props=[C13]
 //@   requires c != nil
+//@   ensures [C18] an-implied-instrument-is-built: result != nil && result.Name != nil
 
 //@ func (*compiler).CompileFile
 //@   option props=[C13]
